@@ -239,6 +239,12 @@ class Classifier:
                 tystr = m.group(1) if m else None
             lim = ty_limit(tystr) if tystr else None
             desc = "%s<%s>(%s)" % (kind, tystr, ", ".join(ops))
+            from core import numeric as _num
+            cv = [re.match(r"^const:(\d+)(?:_[ui]\w+)?$", _num(o_)) for o_ in ops]
+            if op in ("Shr", "Shl") and len(ops) == 2 and cv[1] and int(cv[1].group(1)) < 16:
+                auto = ("interval", "shift by a constant smaller than the width of every integer type used here")
+            if op == "Sub" and len(ops) == 2 and cv[0] and cv[1] and int(cv[0].group(1)) >= int(cv[1].group(1)):
+                auto = ("interval", "difference of two constants, the first not smaller than the second")
             if op in ("Add", "Mul", "Shl") and lim:
                 from bounds import MirBounds
                 mb = MirBounds(self.ctx, f)
@@ -322,9 +328,27 @@ class Classifier:
             if auto is None and m:
                 n_ = m.group(1)
                 nz = any((rop == "Ne" and x == n_ and y == "const:0") or (rop == "Gt" and x == n_ and y == "const:0") for (rop, x, y) in rels)
-                le = any((rop in ("Le", "Lt") and x == n_ and y in lens) for (rop, x, y) in rels)
+                le = any((rop in ("Le", "Lt") and x == n_ and y in lens) for (rop, x, y) in rels) or n_ in lens
+                if n_ in lens and not nz:
+                    nz = any(re.match(r"^!\((Vec|<impl \[T\]>|VecDeque)::is_empty\(%s\)\)$" % re.escape(cont), a_) for a_ in atoms)
                 if nz and le:
                     auto = ("guarded", "n != 0 and n <= len dominate v[n-1]")
+            # for i in LO..v.len() { v[i] } on a vector this function does not shorten
+            m = re.match(r"^ok\(Range<A>>::next\(IntoIterator::into_iter\(Range::Range\((.*)\)\)\)\)$", idx)
+            if auto is None and m:
+                parts = _split_top(m.group(1))
+                if len(parts) == 2 and parts[1] in lens:
+                    v_ = view(self.ctx, f)
+                    pr_ = Prov(f)
+                    shr = [c_ for c_ in v_.calls.values() if c_.name.split("::")[-1] in ("pop", "truncate", "clear", "remove", "swap_remove", "drain", "split_off", "retain", "dedup") and c_.term["args"] and pr_.operand(c_.term["args"][0]) == cont]
+                    # (a shortening that is over before the range is built does not matter: the length in the range is the new one)
+                    mk = [c_ for c_ in v_.calls.values() if c_.name.split("::")[-1] == "into_iter" and c_.term["args"] and pr_.operand(c_.term["args"][0]) == "Range::Range(%s)" % m.group(1)]
+                    shrunk_ = bool(shr)
+                    if shr and mk:
+                        after_mk = v_.pg.reach([("t", c_.bb) for c_ in mk], set())
+                        shrunk_ = any(("t", c_.bb) in after_mk and ("t", s["bb"]) in v_.pg.reach([("t", c_.bb)], set()) for c_ in shr)
+                    if not shrunk_:
+                        auto = ("const/iter", "index drawn from a range whose end is the length of the indexed vector, which is not shortened in this function")
         elif kind == "BoundsCheck":
             idx = ops[1]
             desc = "BoundsCheck(len=%s, index=%s)" % (ops[0], idx)
@@ -359,6 +383,11 @@ class Classifier:
                     if rop == "Lt" and x == idx and (_nl(y), _nl(ops[0])) in eqs:
                         auto = ("guarded", "index < len of a slice whose length was compared equal to this one")
             if auto is None:
+                m_ = re.match(r"^ok\(Range<A>>::next\(IntoIterator::into_iter\(Range::Range\((.*)\)\)\)\)$", idx)
+                parts_ = _split_top(m_.group(1)) if m_ else []
+                if len(parts_) == 2 and _num(parts_[1]) is not None and _num(ops[0]) is not None and _num(parts_[1]) <= _num(ops[0]):
+                    auto = ("const/iter", "index drawn from a range whose constant end does not exceed the array's length")
+            if auto is None:
                 # for index in LO..v.len() { v[index] }: the range's upper end is the length of the indexed container;
                 # holds when the container cannot get shorter while the loop runs (a slice, or a vector that this
                 # function never shortens)
@@ -382,6 +411,40 @@ class Classifier:
                 auto = ("lock-poison", "unwrap of RwLock::read/write: panics only after an earlier panic under the write lock")
         elif kind.startswith("Panic:"):
             desc = "%s[%s]" % (kind, "; ".join(a for a in norm_atoms(atoms))[-1500:])
+            # an assertion that repeats a test made just before it (`if x >= n { return Err(..) } debug_assert!(x < n)`):
+            # its failing condition contradicts a condition that holds where the assertion starts
+            own = self.own_condition(f, s)
+            if own:
+                mk = self._marker_atoms(f, s)
+                if mk is not None:
+                    neg = set()
+                    for a in norm_atoms(mk):
+                        m_ = re.match(r"^\((Lt|Ge|Gt|Le|Eq|Ne)\((.*)\)\)$", a)
+                        if m_:
+                            neg.add("(%s(%s))" % (NEG[m_.group(1)], m_.group(2)))
+                        m_ = re.match(r"^(.*) is (not )?(\S+)$", a)
+                        if m_:
+                            neg.add("%s is %s%s" % (m_.group(1), "" if m_.group(2) else "not ", m_.group(3)))
+                        if a.startswith("!(") and a.endswith(")"):
+                            neg.add("(" + a[2:-1] + ")")
+                        elif a.startswith("(") and a.endswith(")") and not re.match(r"^\((Lt|Ge|Gt|Le|Eq|Ne)\(", a):
+                            neg.add("!" + a)
+                    if any(a in neg for a in norm_atoms(own)):
+                        auto = ("guarded", "the assertion repeats a test that holds where it starts; it cannot fire")
+            if auto is None:
+                # `debug_assert!(a && b)`: the panic is reached from the failing test of a or of b; each of them repeated
+                mk = self._marker_atoms(f, s)
+                ins = self._incoming_conditions(f, s)
+                if mk is not None and ins:
+                    neg = set()
+                    for a in norm_atoms(mk):
+                        m_ = re.match(r"^\((Lt|Ge|Gt|Le|Eq|Ne)\((.*)\)\)$", a)
+                        if m_:
+                            neg.add("(%s(%s))" % (NEG[m_.group(1)], m_.group(2)))
+                    if all(any(a in neg for a in norm_atoms(c_)) for c_ in ins):
+                        auto = ("guarded", "each failing test of the assertion repeats a test that holds where it starts; it cannot fire")
+                    elif len(ins) == 1 and self._flag_cannot_fail(f, s, neg):
+                        auto = ("guarded", "the assertion is a conjunction of tests that each hold where it starts; it cannot fire")
         return desc, atoms, auto
 
     def own_condition(self, f, s):
@@ -424,6 +487,114 @@ class Classifier:
             cur = p
         return []
 
+    def _marker_atoms(self, f, s):
+        """The conditions that hold where the debug assertion behind panic site s starts (at its
+        `cfg!(debug_assertions)` test), or None when the site is not a debug assertion."""
+        g = guards(self.ctx, f)
+        if g._dom is None:
+            g._compute()
+        node = ("t", s["bb"])
+        markers = [(e, info) for e, info in g._dom.items() if node in info[0] and node != e and list(g.describe_all(info[1], info[2], info[3])) == ["(const:1)"]]
+        if not markers:
+            return None
+        m = min(markers, key=lambda x: len(x[1][0]))
+        return list(g.atoms_at(("t", m[1][1])))
+
+    def _incoming_conditions(self, f, s):
+        """One atom list per switch edge that leads into the panicking block (through the straight line that builds
+        the message); [] when the shape is not that simple."""
+        g = guards(self.ctx, f)
+        preds = g.prov._preds()
+        live = lambda p: not f.blocks[p]["cleanup"] and f.blocks[p]["term"]["t"] != "unreachable"
+        cur = s["bb"]
+        for _ in range(12):
+            ps = [p for p in preds.get(cur, []) if live(p)]
+            if len(ps) != 1 or f.blocks[ps[0]]["term"]["t"] == "switch":
+                break
+            cur = ps[0]
+        out = []
+        for p in [p for p in preds.get(cur, []) if live(p)]:
+            to = cur
+            hops = 0
+            while f.blocks[p]["term"]["t"] == "goto" and not f.blocks[p]["stmts"] and hops < 4:
+                pp = [q for q in preds.get(p, []) if live(q)]
+                if len(pp) != 1:
+                    break
+                to, p, hops = p, pp[0], hops + 1
+            t = f.blocks[p]["term"]
+            if t["t"] != "switch":
+                return []
+            vals = [str(x) for x, _ in t["arms"]] + ["otherwise"]
+            tg = [b_ for _, b_ in t["arms"]] + [t["otherwise"]]
+            for k_, b_ in enumerate(tg):
+                if b_ == to:
+                    out.append(list(g.describe_all(p, vals[k_], vals)))
+        return out
+
+    def _flag_cannot_fail(self, f, s, neg):
+        """`debug_assert!(a && b)` is compiled as a flag: false where a fails, b where a holds.  True when every way the
+        flag can be false is excluded by `neg` (the negations of what holds where the assertion starts)."""
+        from prov import canon_bool
+        g = guards(self.ctx, f)
+        preds = g.prov._preds()
+        live = lambda p: not f.blocks[p]["cleanup"] and f.blocks[p]["term"]["t"] != "unreachable"
+        cur = s["bb"]
+        sw = None
+        for _ in range(12):
+            ps = [p for p in preds.get(cur, []) if live(p)]
+            if len(ps) != 1:
+                return False
+            if f.blocks[ps[0]]["term"]["t"] == "switch":
+                sw = ps[0]
+                break
+            cur = ps[0]
+        if sw is None:
+            return False
+        t = f.blocks[sw]["term"]
+        if t["discr"]["k"] not in ("copy", "move") or t["discr"]["place"]["proj"]:
+            return False
+        l = t["discr"]["place"]["local"]
+        pol_fail = None          # the value of the flag on the edge into the panic
+        vals = [str(x) for x, _ in t["arms"]] + ["otherwise"]
+        tg = [b_ for _, b_ in t["arms"]] + [t["otherwise"]]
+        for v_, b_ in zip(vals, tg):
+            if b_ == cur:
+                pol_fail = (v_ != "0")
+        if pol_fail is None:
+            return False
+        hops = 0
+        defs = g.prov.defs.get(l, [])
+        neg_flag = False
+        while len(defs) == 1 and defs[0][1] != "t" and hops < 4:
+            rv = defs[0][2]["rv"]
+            if rv["r"] == "unop" and rv.get("op") == "Not" and rv["a"]["k"] in ("copy", "move") and not rv["a"]["place"]["proj"]:
+                neg_flag = not neg_flag
+                defs = g.prov.defs.get(rv["a"]["place"]["local"], [])
+            elif rv["r"] == "use" and rv["op"]["k"] in ("copy", "move") and not rv["op"]["place"]["proj"]:
+                defs = g.prov.defs.get(rv["op"]["place"]["local"], [])
+            else:
+                break
+            hops += 1
+        want = pol_fail != neg_flag          # the value the underlying flag must take for the assertion to fail
+        if len(defs) < 2:
+            return False
+        for d in defs:
+            if d[1] == "t":
+                return False
+            rv = d[2]["rv"]
+            if rv["r"] == "use" and rv["op"]["k"] == "const":
+                cval = str(rv["op"].get("val", rv["op"].get("repr", ""))).replace("const ", "") in ("true", "1")
+                if cval != want:
+                    continue
+                here = norm_atoms(g.atoms_at(("s", d[0], d[1])))
+                if not any(a in neg for a in here):
+                    return False
+            else:
+                e = g.prov._def(d, 1, (l,))
+                if not any(a in neg for a in norm_atoms(canon_bool(e, want))):
+                    return False
+        return True
+
     def panic_signature(self, f, s):
         """What an assertion is about, independent of how it is spelled: the fields, constants and functions its own
         condition mentions."""
@@ -434,7 +605,7 @@ class Classifier:
             if re.match(r"^!?\(?phi\((const:[01]\|?)+\)\)?$", a):
                 continue        # a boolean flag by itself says nothing; what it was computed from is in the refined atoms
             toks |= set(re.findall(r"\.([a-z_]\w*)", a))
-            toks |= {"const:" + c.split("::")[-1] for c in re.findall(r"const:([\w:]+)", a)}
+            toks |= {"const:" + re.sub(r"^(-?\d+)_[ui](8|16|32|64|128|size)$", r"\1", c.split("::")[-1]) for c in re.findall(r"const:([\w:-]+)", a)}
             # (of the functions in the operands' provenance only the ones that say what is measured: how an id or an
             # entry was obtained changes with ordinary refactoring)
             toks |= {t_.split("::")[-1] for t_ in re.findall(r"([A-Za-z_][\w:]*)\(", a)} & {"len", "is_empty", "count", "max", "min", "Add", "Sub", "Mul", "Div", "Rem", "is_ascii", "is_some", "is_none", "contains"}
@@ -442,14 +613,26 @@ class Classifier:
         return ",".join(sorted(toks))
 
     def audited(self, f, kind, desc, atoms):
-        """Matching audited-table entry or None."""
+        """Matching audited-table entry or None (for a sum or product also with the operands the other way round)."""
+        e = self._audited1(f, kind, desc, atoms)
+        if e is None and kind in ("Overflow:Add", "Overflow:Mul"):
+            m_ = re.match(r"^(Overflow:\w+<[^>]*>\()(.*)\)$", desc)
+            parts_ = _split_top(m_.group(2).replace(", ", ",")) if m_ else []
+            if len(parts_) == 2:
+                e = self._audited1(f, kind, "%s%s, %s)" % (m_.group(1), parts_[1], parts_[0]), atoms)
+        return e
+
+    def _audited1(self, f, kind, desc, atoms):
         kd = key_of(desc)
         cands = []
         for e in self.entries:
             if not re.search(e["function"], f.path):
                 continue
             if e.get("kind") and not re.search(e["kind"], kind):
-                continue
+                # debug_assert!(a == b) and debug_assert_eq!(a, b) are one assertion spelled two ways; what is asserted
+                # is compared through the assertion's signature, not through the macro's name
+                if not (kind.startswith("Panic:debug_assert") and re.search(r"Panic:debug_assert", e["kind"])):
+                    continue
             cands.append(e)
             if e.get("desc") and not re.search(e["desc"], kd):
                 continue
@@ -728,6 +911,8 @@ def alloc(which):
                             why = "guarded: size %s %s on every path" % (rop, y)
                 if why is None and re.search(r"(Ord|cmp)::min\(", sp) and re.search(tbl.get("clamp_sources", r"max_size"), sp):
                     why = "clamped through min(.., configured maximum)"
+                if why is None and re.search(r"(Ord|cmp)::min\(", sp) and re.search(r"Sectors::num_sectors\(|SeekFrom::End\(", sp):
+                    why = "clamped through min(.., the number of sectors the file really has): proportional to the input's own size"
                 if why is None and re.search(r"Chain::len\(", sp):
                     why = "length of a chain that has already been materialised sector by sector"
                 if why is None:
@@ -779,7 +964,8 @@ def sink(which):
                 skey = "%s|%s" % (s["kind"], shape_of(desc))
                 # (applied to function-wide entries only, and by sink kind: a finer key makes ordinary refactoring -
                 # a loop counter, a re-bound operand - look like a new site)
-                if frozen is not None and not e.get("kind") and not e.get("desc") and not any(k_.split("|")[0] == s["kind"] for k_ in frozen) and not e["class"].startswith("known-finding"):
+                if frozen is not None and not e.get("kind") and not e.get("desc") and not any(k_.split("|")[0] == s["kind"] for k_ in frozen) and not e["class"].startswith("known-finding") \
+                        and not (s["kind"].startswith("Panic:") and ctx.table("sink_keys").get("panics") is not None):
                     res.fail(Finding(res.rule, key + "/new-sink-under-old-audit", "panic-capable site %s is new in %s: the audited discharge for this function (%s) was written for other sites and does not cover it (conditions on the path: %s)" % (desc[:140], p.split("::")[-1], e["reason"][:100], "; ".join(a[:60] for a in atoms[:3]) or "none"), f, s["span"]))
                     continue
                 # an assertion is covered by the audit only if it was there when the audit was made: the same thing
